@@ -49,13 +49,27 @@ def prog_shard(shard):
     for tail in itertools.product(range(len(A)), repeat=length - 1):
         idx = (first,) + tail
         prog = [A[i] for i in idx]
+        # programs with an ecall are also run with a7 = 4 and a0 = a string address preset (a print-string right behind stores)
+        for regs_in in ((PROG_REGS, STR_REGS) if any(i[0] == "ecall" for i in prog) else (PROG_REGS,)):
+            one_program(p, prog, idx, regs_in, ncfg)
+    if first == 0:
+        p.sample(dict(kind="cached-program", prog=[list(A[(2 * i) % len(A)]) for i in range(length)], cache=list(PROG_CACHES[0])))
+    return p
+
+
+STR_REGS = {**PROG_REGS, 17: 4, 10: BASE + 64}
+
+
+def one_program(p, prog, idx, regs_in, ncfg):
+    length = len(prog)
+    if True:
         pd = {4 * i: ins for i, ins in enumerate(prog)}
-        r, m = rv.ref_state(PROG_REGS, PROG_WORDS)
+        r, m = rv.ref_state(regs_in, PROG_WORDS)
         exp = rv32.run_seq(pd, r, m, 40)
         for ci in range(ncfg):
             ib, bb, ways, kind, policy = PROG_CACHES[ci]
             for mode in (rv.SINGLE, rv.FIVE):
-                sim = rv.make_sim(mode, prog, PROG_REGS, PROG_WORDS, dcache=rv.cache_opts(ib, bb, ways, kind, policy, 3))
+                sim = rv.make_sim(mode, prog, regs_in, PROG_WORDS, dcache=rv.cache_opts(ib, bb, ways, kind, policy, 3))
                 got = rv.run(sim, 400)
                 p.evaluations += 1
                 bad = []
@@ -72,17 +86,16 @@ def prog_shard(shard):
                     if exp.err is None and got.mem != exp.mem:
                         bad.append(("mem", "logical memory contents differ from the uncached run"))
                 for f, d in bad:
-                    p.violation(dict(oracle="cached-program", field=f), dict(kind="cached-program", prog=[list(i) for i in prog], cache=[ib, bb, ways, kind, policy], mode=mode),
-                                f"[{rv.prog_text(prog)}] {kind}/{policy} i{ib}b{bb}w{ways} {mode}: {d}", size=(length, idx, ci))
+                    p.violation(dict(oracle="cached-program", field=f), dict(kind="cached-program", prog=[list(i) for i in prog], cache=[ib, bb, ways, kind, policy], mode=mode, str_regs=regs_in is STR_REGS),
+                                f"[{rv.prog_text(prog)}]{' a7=4 a0=string' if regs_in is STR_REGS else ''} {kind}/{policy} i{ib}b{bb}w{ways} {mode}: {d}", size=(length, idx, ci))
         if exp.loads + exp.stores > 1:
             p.nontrivial += 1
         if "print" in exp.events:
             p.counters["print-string"] += 1
+            if exp.stores:
+                p.counters["print-string-behind-a-store"] += 1
         if exp.err is not None:
             p.counters["fault"] += 1
-    if first == 0:
-        p.sample(dict(kind="cached-program", prog=[list(A[(2 * i) % len(A)]) for i in range(length)], cache=list(PROG_CACHES[0])))
-    return p
 
 
 # ---- declared data: what the assembler preloads is what a cached program reads -------------------------------------
@@ -158,9 +171,10 @@ def replay(case):
     prog = [tuple(i) for i in case["prog"]]
     ib, bb, ways, kind, policy = case["cache"]
     pd = {4 * i: ins for i, ins in enumerate(prog)}
-    r, m = rv.ref_state(PROG_REGS, PROG_WORDS)
+    regs_in = STR_REGS if case.get("str_regs") else PROG_REGS
+    r, m = rv.ref_state(regs_in, PROG_WORDS)
     exp = rv32.run_seq(pd, r, m, 40)
-    sim = rv.make_sim(case["mode"], prog, PROG_REGS, PROG_WORDS, dcache=rv.cache_opts(ib, bb, ways, kind, policy, 3))
+    sim = rv.make_sim(case["mode"], prog, regs_in, PROG_WORDS, dcache=rv.cache_opts(ib, bb, ways, kind, policy, 3))
     got = rv.run(sim, 400)
     res = []
     if got.exc is not None or got.err != exp.err or got.regs != exp.regs or got.out != exp.out or got.exit != exp.exit or (exp.err is None and got.mem != exp.mem):
@@ -218,6 +232,7 @@ def run(ctx):
     ctx.space("declared-data-through-caches", part, t0, texts=len(decl_texts()), cache_configs=len(DECL_CACHES), modes=2,
               note="data segments with every declaration kind, loaded element by element and stored to, cached vs. uncached")
     ctx.require("declared-data-through-a-cache")
+    ctx.require("print-string-behind-a-store")
     ctx.require("cache-eviction", "cache-fill", "rejected")
     cachebfs.deep_paths(ctx, WANT)
     for L in range(1, (3 if ctx.quick else 4) + 1):
